@@ -412,6 +412,12 @@ func runReplay(repo, verifDir string, rp *ReplaySpec, scenarioPath string) (bool
 	cmd.Env = append(os.Environ(), "GOFLAGS=-mod=mod", "GOPROXY=off", "GOSUMDB=off", "GOTOOLCHAIN=local", "VERIF_SCENARIO="+scenarioPath)
 	out, _ := cmd.CombinedOutput()
 	s := string(out)
+	if i := strings.Index(s, "REPLAY-CRASH-MEANS-REPRODUCED"); i >= 0 {
+		rest := s[i:]
+		if strings.Contains(rest, "panic: ") || strings.Contains(rest, "fatal error: ") {
+			return true, s
+		}
+	}
 	return strings.Contains(s, "REPLAY: reproduced"), s
 }
 
